@@ -16,7 +16,7 @@ from vf.common import WORK, VERIF, InfraError, log, mkdir
 from vf.replay import BatchReplayer
 
 DRV = os.path.join(VERIF, "harness", "cpp", "instmgr_drv.cc")
-FIELDS = ["objs", "ids", "sts", "maxId", "freed", "find", "byA", "byB", "kwA", "kwB"]
+FIELDS = ["objs", "ids", "sts", "maxId", "freed", "find", "ver", "byA", "byB", "kwA", "kwB"]
 
 
 def hist_line(h):
